@@ -6,7 +6,7 @@
    GitHub-issues special case); spec_records is the naive specification used by the run-time predicate. *)
 From Coq Require Import Sorted.
 From Curies.model Require Import Str PyData Trie Conv Query Val Answer Spec CheckQ Discovery CheckD.
-From Curies.proofs Require Import StrFacts IndexFacts QueryFacts SortFacts LawFacts DiscoveryFacts.
+From Curies.proofs Require Import StrFacts IndexFacts QueryFacts SortFacts LawFacts DiscoveryFacts PModelD.
 
 (* the loop over a dictionary of sets computes exactly the specification *)
 Theorem C19_records : forall al recog delims cutoff meta uris,
@@ -68,12 +68,26 @@ Theorem C19_roundtrip : forall al recog ex dl cutoff meta us u p l D,
 Proof. exact roundtrip. Qed.
 Print Assumptions C19_roundtrip.
 
+(* compression of a learnable URI needs no condition on the metaprefix (expanding back does: CURIE syntax) *)
+Theorem C19_compresses : forall al recog ex dl cutoff meta us u p l D,
+  match cutoff with None => True | Some k => k = 0 end ->
+  In u us -> skipped recog ex u = false -> classify al (eff_delims dl) u = Some (p, l) ->
+  mk_conv true [58%N] (spec_records al recog ex dl cutoff meta us) = Val D ->
+  exists x, compress D u false false = Val (Some x).
+Proof. exact compresses. Qed.
+Print Assumptions C19_compresses.
+
 (* URIs already recognised by a supplied converter contribute nothing *)
 Theorem C19_known_skip : forall al recog ex dl cutoff meta us,
   spec_records al recog ex dl cutoff meta us =
   spec_records al recog ex dl cutoff meta (filter (fun u => negb (recog u)) us).
 Proof. exact known_skip. Qed.
 Print Assumptions C19_known_skip.
+
+(* the executable predicate of the run (known finding K1 excluded) accepts the model's own observations on every valid case *)
+Theorem C19_P_model : forall k, valid_d k = true -> P_C19 true k (model_dobs k) = true.
+Proof. exact P_C19_model. Qed.
+Print Assumptions C19_P_model.
 
 (* decimal numbering is injective (so the generated CURIE prefixes never clash) *)
 Theorem C19_dec_injective : forall n m, dec n = dec m -> n = m.
